@@ -35,7 +35,16 @@ def scenarios() -> dict[str, dict[str, Any]]:
         st_.append(stage("z", ["j"], [ok()]))
         return {"name": "fork", "stages": st_}
 
+    def built(spec: dict[str, Any]) -> dict[str, Any]:
+        # tasks built by the stage builder at start time (nothing persisted before the plan commit): the zombie re-plan path
+        for s_ in spec["stages"]:
+            if s_["ref"] == "j":
+                s_["built"] = True
+        return spec
+
     return {
+        "and2-built": {"spec": built(fork(2)), "hold": "StartStage:j", "workers": 2},
+        "dup-initial-built": {"spec": built({"name": "dupb", "stages": [stage("j", [], [ok(), ok()]), stage("z", ["j"], [ok()])]}), "hold": "StartStage:j", "workers": 2, "dup": 1},
         "and2": {"spec": fork(2), "hold": "StartStage:j", "workers": 2},
         "and3": {"spec": fork(3), "hold": "StartStage:j", "workers": 3},
         "disc2": {"spec": fork(2, join="DISC"), "hold": "StartStage:j", "workers": 2},
@@ -106,7 +115,10 @@ def judge(c: Campaign, name: str, sc: dict[str, Any], w: World, s: Sched, pre: d
         if n != 1:
             viol.append((f"task-executed-{n}-times", f"{k} executed {n}x"))
     first_task_inserts = sum(1 for _q, _st, _w, op, tbl, _rid, mt, p in qlog if op == "ins" and tbl == "q" and mt == "StartTask"
-                             and json.loads(p).get("task_id") == "W1-j-t0")
+                             and json.loads(p).get("stage_id") == "W1-j" and str(json.loads(p).get("task_id", "")).endswith("-t0"))
+    task_rows = w.scalar("SELECT COUNT(*) FROM task_executions WHERE stage_id = 'W1-j'")
+    if task_rows != 2:
+        viol.append((f"stage-has-{task_rows}-task-rows", f"stage j was planned with 2 tasks but has {task_rows} task rows"))
     if first_task_inserts != 1:
         viol.append((f"starttask-queued-{first_task_inserts}-times", f"{first_task_inserts} StartTask messages queued for j's first task"))
     if got["workflow"] != "SUCCEEDED":
